@@ -5,6 +5,7 @@ from __future__ import annotations
 import copy
 
 from vf.combi import digits
+from vf.guard import call as gcall, too_many_hangs
 from vf.core import Job, new_result, viol
 
 LEVEL = "exploration"
@@ -149,11 +150,11 @@ def judge(matrix, sec_cols, find_all, max_solutions, max_iter, naming, tap=False
         t.install()
     try:
         try:
-            res = dlx.solve_exact_cover(matrix, **kw)
+            res = gcall(lambda: dlx.solve_exact_cover(matrix, **kw))
         finally:
             if t:
                 t.remove()
-        res2 = dlx.solve_exact_cover(matrix, **kw)
+        res2 = gcall(lambda: dlx.solve_exact_cover(matrix, **kw))
     except Exception as ex:  # noqa: BLE001
         return [("raised", f"{type(ex).__name__}: {ex}")], "raised", False, t
     errs = []
@@ -260,7 +261,7 @@ def _basic_chunk(params, lo, hi):
         code = k >> cols
         m = _matrix(code, rows, cols)
         run_case(r, m, [j for j in range(cols) if sec >> j & 1], fa, tap=(tap_mod and code % tap_mod == 0 and fa))
-        if len(r["violations"]) >= 40:
+        if len(r["violations"]) >= 40 or too_many_hangs():
             r["capped"] = True
             break
     return r
@@ -290,7 +291,7 @@ def _limits_chunk(params, lo, hi):
         sc = [j for j in range(cols) if sec >> j & 1]
         for fa in (False, True):
             run_case(r, m, sc, fa, ms, mi, nm, tap=(mi is None and fa and rows * cols <= 9))
-        if len(r["violations"]) >= 40:
+        if len(r["violations"]) >= 40 or too_many_hangs():
             r["capped"] = True
             break
     return r
@@ -302,7 +303,7 @@ def _big_chunk(params, lo, hi):
     for idx in range(lo, hi):
         m = _matrix(off + idx, rows, cols)
         run_case(r, m, [], True, tap=((off + idx) % 4 == 0))
-        if len(r["violations"]) >= 40:
+        if len(r["violations"]) >= 40 or too_many_hangs():
             r["capped"] = True
             break
     return r
